@@ -33,8 +33,8 @@ CONSTANTS MaxInputs, MaxStages, Cap,   \* Cap: units a pipe buffers
 VARIABLES cfg,
           pc, cur, si, npids, success, haspid, wret, output, exitc,   \* driver
           ch, lk, pipes, files,                                        \* children, link child, pipes, file system
-          linkStarted, failed, order                                   \* history
-vars == <<cfg, pc, cur, si, npids, success, haspid, wret, output, exitc, ch, lk, pipes, files, linkStarted, failed, order>>
+          linkStarted, failed, early                                   \* history
+vars == <<cfg, pc, cur, si, npids, success, haspid, wret, output, exitc, ch, lk, pipes, files, linkStarted, failed, early>>
 
 Stages == 1..MaxStages
 NONE == "none"
@@ -80,14 +80,15 @@ Init ==
   /\ haspid = [s \in Stages |-> FALSE] /\ wret = 0 /\ output = NONE /\ exitc = NONE
   /\ ch = [s \in Stages |-> NoChild] /\ lk = NoChild
   /\ pipes = [j \in Stages |-> NoPipe]
-  /\ files = {} /\ linkStarted = FALSE /\ failed = FALSE /\ order = <<>>
+  /\ files = {} /\ linkStarted = FALSE /\ failed = FALSE /\ early = {}
 
 (* ------------------------------------------------------------------------------ *)
 (* Children.                                                                        *)
 Die(s, status, how) ==      \* stage s becomes a zombie; its descriptors are closed
   /\ ch' = [ch EXCEPT ![s].st = "zombie", ![s].status = status]
   /\ pipes' = [j \in Stages |-> [pipes[j] EXCEPT !.r = @ \ {s}, !.w = @ \ {s}]]
-  /\ order' = Append(order, <<cur, s, how>>)
+  \* history: stages of the failing input that had exited 0 before any stage failed on its own
+  /\ early' = IF how = "exit0" /\ ~failed /\ cur = cfg.fin THEN early \cup {s} ELSE early
 
 CRead(s) ==
   /\ ch[s].st = "run" /\ ~ch[s].eof /\ EndOf(s) # "exit1_before_read"
@@ -95,20 +96,20 @@ CRead(s) ==
      ELSE IF pipes[s - 1].buf > 0 THEN pipes' = [pipes EXCEPT ![s - 1].buf = @ - 1] /\ UNCHANGED ch
      ELSE /\ pipes[s - 1].w = {}                                                  \* end of file; else blocked
           /\ ch' = [ch EXCEPT ![s].eof = TRUE] /\ UNCHANGED pipes
-  /\ UNCHANGED <<cfg, pc, cur, si, npids, success, haspid, wret, output, exitc, lk, files, linkStarted, failed, order>>
+  /\ UNCHANGED <<cfg, pc, cur, si, npids, success, haspid, wret, output, exitc, lk, files, linkStarted, failed, early>>
 
 CWrite(s) ==
   /\ ch[s].st = "run" /\ ch[s].wr < Target(s)
   /\ IF s = N
      THEN /\ files' = IF output = NONE THEN files ELSE files \cup {output}        \* creates / extends the output file
           /\ ch' = [ch EXCEPT ![s].wr = @ + 1]
-          /\ UNCHANGED <<pipes, failed, order>>
+          /\ UNCHANGED <<pipes, failed, early>>
      ELSE IF pipes[s].r = {}
           THEN /\ Die(s, "sig", "SIGPIPE") /\ failed' = TRUE /\ UNCHANGED files
           ELSE /\ pipes[s].buf < Cap                                               \* else blocked
                /\ pipes' = [pipes EXCEPT ![s].buf = @ + 1]
                /\ ch' = [ch EXCEPT ![s].wr = @ + 1]
-               /\ UNCHANGED <<files, failed, order>>
+               /\ UNCHANGED <<files, failed, early>>
   /\ UNCHANGED <<cfg, pc, cur, si, npids, success, haspid, wret, output, exitc, lk, linkStarted>>
 
 CExit(s) ==
@@ -134,28 +135,28 @@ ChildStep(s) == CRead(s) \/ CWrite(s) \/ CExit(s) \/ CCrash(s) \/ CTermDelivered
 
 (* the link command: reads the objects, writes the executable *)
 LWrite == /\ lk.st = "run" /\ lk.wr = 0 /\ files' = files \cup {"exe"} /\ lk' = [lk EXCEPT !.wr = 1]
-          /\ UNCHANGED <<cfg, pc, cur, si, npids, success, haspid, wret, output, exitc, ch, pipes, linkStarted, failed, order>>
+          /\ UNCHANGED <<cfg, pc, cur, si, npids, success, haspid, wret, output, exitc, ch, pipes, linkStarted, failed, early>>
 LEnd == /\ lk.st = "run"
         /\ \/ cfg.lend = "exit0" /\ lk.wr = 1 /\ lk' = [lk EXCEPT !.st = "zombie", !.status = "ok"]
            \/ cfg.lend = "exit1_after" /\ lk.wr = 1 /\ lk' = [lk EXCEPT !.st = "zombie", !.status = "exit1"]
            \/ cfg.lend = "signal" /\ lk' = [lk EXCEPT !.st = "zombie", !.status = "sig"]
-        /\ UNCHANGED <<cfg, pc, cur, si, npids, success, haspid, wret, output, exitc, ch, pipes, files, linkStarted, failed, order>>
+        /\ UNCHANGED <<cfg, pc, cur, si, npids, success, haspid, wret, output, exitc, ch, pipes, files, linkStarted, failed, early>>
 
 (* ------------------------------------------------------------------------------ *)
 (* Driver: buildobj().                                                              *)
-DUnch == <<cfg, ch, lk, pipes, files, linkStarted, failed, order>>
+DUnch == <<cfg, ch, lk, pipes, files, linkStarted, failed, early>>
 
 (* output name; mkstemp creates the temporary object *)
 Mkstemp ==
   /\ pc = "start" /\ cfg.mode = "link"
   /\ files' = files \cup {TmpOf(cur)} /\ output' = TmpOf(cur)
   /\ pc' = "spawn" /\ si' = 1 /\ npids' = 0
-  /\ UNCHANGED <<cfg, cur, success, haspid, wret, exitc, ch, lk, pipes, linkStarted, failed, order>>
+  /\ UNCHANGED <<cfg, cur, success, haspid, wret, exitc, ch, lk, pipes, linkStarted, failed, early>>
 NameOutput ==
   /\ pc = "start" /\ cfg.mode # "link"
   /\ output' = IF cfg.mode = "file" THEN OutOf(cur) ELSE NONE
   /\ pc' = "spawn" /\ si' = 1 /\ npids' = 0
-  /\ UNCHANGED <<cfg, cur, success, haspid, wret, exitc, ch, lk, pipes, files, linkStarted, failed, order>>
+  /\ UNCHANGED <<cfg, cur, success, haspid, wret, exitc, ch, lk, pipes, files, linkStarted, failed, early>>
 
 (* spawnphase(): pipe(), posix_spawn() succeeded; the child holds the previous read end as its stdin and the
    new write end as its stdout; the driver holds both ends of the new pipe *)
@@ -169,19 +170,19 @@ SpawnOk ==
   /\ haspid' = [haspid EXCEPT ![si] = TRUE]
   /\ npids' = npids + 1
   /\ pc' = IF si < N THEN "closew" ELSE "wait"
-  /\ UNCHANGED <<cfg, cur, si, success, wret, output, exitc, lk, files, linkStarted, failed, order>>
+  /\ UNCHANGED <<cfg, cur, si, success, wret, output, exitc, lk, files, linkStarted, failed, early>>
 (* close(pipefd[1]) *)
 CloseWriteEnd ==
   /\ pc = "closew"
   /\ pipes' = [pipes EXCEPT ![si].w = @ \ {0}]
   /\ si' = si + 1 /\ pc' = "spawn"
-  /\ UNCHANGED <<cfg, cur, npids, success, haspid, wret, output, exitc, ch, lk, files, linkStarted, failed, order>>
+  /\ UNCHANGED <<cfg, cur, npids, success, haspid, wret, output, exitc, ch, lk, files, linkStarted, failed, early>>
 (* posix_spawn() failed: both ends of the new pipe are closed again; goto kill *)
 SpawnErr ==
   /\ pc = "spawn" /\ si <= N /\ EndOf(si) = "spawn_fails"
   /\ failed' = TRUE
   /\ pc' = "kill"
-  /\ UNCHANGED <<cfg, cur, si, npids, success, haspid, wret, output, exitc, ch, lk, pipes, files, linkStarted, order>>
+  /\ UNCHANGED <<cfg, cur, si, npids, success, haspid, wret, output, exitc, ch, lk, pipes, files, linkStarted, early>>
 
 (* wait(): returns ANY terminated child *)
 Wait(s) ==
@@ -189,7 +190,7 @@ Wait(s) ==
   /\ ch[s].st = "zombie"
   /\ ch' = [ch EXCEPT ![s].st = "reaped"]
   /\ wret' = s /\ pc' = "match"
-  /\ UNCHANGED <<cfg, cur, si, npids, success, haspid, output, exitc, lk, pipes, files, linkStarted, failed, order>>
+  /\ UNCHANGED <<cfg, cur, si, npids, success, haspid, output, exitc, lk, pipes, files, linkStarted, failed, early>>
 (* the for loop over stages[] and succeeded() *)
 MatchPid ==
   /\ pc = "match"
@@ -202,7 +203,7 @@ KillRemaining ==
   /\ pc = "kill"
   /\ ch' = IF success /\ npids > 0 THEN [s \in Stages |-> IF haspid[s] THEN [ch[s] EXCEPT !.term = TRUE] ELSE ch[s]] ELSE ch
   /\ success' = FALSE /\ pc' = "wait"
-  /\ UNCHANGED <<cfg, cur, si, npids, haspid, wret, output, exitc, lk, pipes, files, linkStarted, failed, order>>
+  /\ UNCHANGED <<cfg, cur, si, npids, haspid, wret, output, exitc, lk, pipes, files, linkStarted, failed, early>>
 (* while (npids > 0) left *)
 WaitDone ==
   /\ pc = "wait" /\ npids = 0
@@ -213,7 +214,7 @@ UnlinkOutput ==
   /\ pc = "unlink"
   /\ files' = (files \ {output}) \ (IF "TempLeak" \in Devs THEN {} ELSE Temps)
   /\ pc' = "exit1"
-  /\ UNCHANGED <<cfg, cur, si, npids, success, haspid, wret, output, exitc, ch, lk, pipes, linkStarted, failed, order>>
+  /\ UNCHANGED <<cfg, cur, si, npids, success, haspid, wret, output, exitc, ch, lk, pipes, linkStarted, failed, early>>
 Exit1 ==
   /\ pc = "exit1" /\ exitc' = 1 /\ pc' = "exited"
   /\ UNCHANGED <<cfg, cur, si, npids, success, haspid, wret, output>> /\ UNCHANGED DUnch
@@ -227,28 +228,28 @@ NextInput ==
      ELSE /\ UNCHANGED <<cur, ch, pipes>>
           /\ IF cfg.mode = "link" THEN pc' = "link" /\ UNCHANGED exitc
              ELSE pc' = "exited" /\ exitc' = 0                                   \* return 0 from main()
-  /\ UNCHANGED <<cfg, si, npids, success, haspid, wret, output, lk, files, linkStarted, failed, order>>
+  /\ UNCHANGED <<cfg, si, npids, success, haspid, wret, output, lk, files, linkStarted, failed, early>>
 
 (* buildexe() *)
 SpawnLinkOk ==
   /\ pc = "link" /\ cfg.lend # "spawn_fails"
   /\ lk' = [NoChild EXCEPT !.st = "run"] /\ linkStarted' = TRUE /\ pc' = "linkwait"
-  /\ UNCHANGED <<cfg, cur, si, npids, success, haspid, wret, output, exitc, ch, pipes, files, failed, order>>
+  /\ UNCHANGED <<cfg, cur, si, npids, success, haspid, wret, output, exitc, ch, pipes, files, failed, early>>
 (* fatal("spawn …"): exit(1) without removing the temporaries *)
 SpawnLinkErr ==
   /\ pc = "link" /\ cfg.lend = "spawn_fails"
   /\ files' = IF "LinkSpawnLeak" \in Devs THEN files ELSE files \ Temps
   /\ exitc' = 1 /\ pc' = "exited"
-  /\ UNCHANGED <<cfg, cur, si, npids, success, haspid, wret, output, ch, lk, pipes, linkStarted, failed, order>>
+  /\ UNCHANGED <<cfg, cur, si, npids, success, haspid, wret, output, ch, lk, pipes, linkStarted, failed, early>>
 (* waitpid(pid) *)
 WaitLink ==
   /\ pc = "linkwait" /\ lk.st = "zombie"
   /\ lk' = [lk EXCEPT !.st = "reaped"] /\ pc' = "unlinktemps"
-  /\ UNCHANGED <<cfg, cur, si, npids, success, haspid, wret, output, exitc, ch, pipes, files, linkStarted, failed, order>>
+  /\ UNCHANGED <<cfg, cur, si, npids, success, haspid, wret, output, exitc, ch, pipes, files, linkStarted, failed, early>>
 UnlinkTemps ==
   /\ pc = "unlinktemps"
   /\ files' = files \ Temps /\ pc' = "exitlink"
-  /\ UNCHANGED <<cfg, cur, si, npids, success, haspid, wret, output, exitc, ch, lk, pipes, linkStarted, failed, order>>
+  /\ UNCHANGED <<cfg, cur, si, npids, success, haspid, wret, output, exitc, ch, lk, pipes, linkStarted, failed, early>>
 ExitLink ==
   /\ pc = "exitlink" /\ exitc' = (IF lk.status = "ok" THEN 0 ELSE 1) /\ pc' = "exited"
   /\ UNCHANGED <<cfg, cur, si, npids, success, haspid, wret, output>> /\ UNCHANGED DUnch
@@ -294,7 +295,7 @@ Live_Exits == <>Exited
 (* ------------------------------------------------------------------------------ *)
 (* Behaviour classes for flow A: one line per terminal state.                       *)
 EmitCase ==
-  PrintT("VCASE " \o ToJson([cfg |-> cfg, order |-> order, exit |-> exitc, files |-> files, link |-> linkStarted,
+  PrintT("VCASE " \o ToJson([cfg |-> cfg, early |-> early, exit |-> exitc, files |-> files, link |-> linkStarted,
                              required_files |-> files \ Temps]))
 Inv_Emit == (EmitCases /\ Exited) => EmitCase
 =============================================================================
